@@ -4,6 +4,7 @@
   (`Extracted/CallOrder.lean`); positional evidence supporting the dynamic oracle.
 -/
 import AgeModel.Extracted.CallOrder
+import Proofs.GoTieDecrypt
 namespace AgeModel
 namespace Tie.C03
 
@@ -15,6 +16,25 @@ theorem decrypt_order : Extracted.decryptOrder.map (·.1) = ["hmac.Equal", "stre
 /-! (That `format.Parse` as it stands in the source returns the model's header and remainder for every
     input — which makes `mac_covers_received_bytes` a statement about the source — is `Tie.C07.parse_tie`;
     it is not repeated here, so that a rewrite of the parser touches C07's obligations only.) -/
+
+
+/-! ## age.Decrypt itself (DESIGN.md §5.3)
+
+`age.Decrypt` is TRANSLATED from age.go on every run: `format.Parse` (translated too), the identity
+loop, the nil-key test, THE HEADER MAC COMPARISON, the nonce, and only then `stream.NewReader`.
+`Identity.Unwrap`, `headerMAC`, `streamKey`, `stream.NewReader`, `format.DecodeString` are abstract
+and assumed to be the model's (`GoTie.DecryptEnv`). For every file and identity list the translated
+`Decrypt` returns what the model's `decryptInit` returns — in particular a reader ONLY when the MAC
+the file carries equals the MAC of the received header bytes under the unwrapped file key
+(`Props.C03.mac_gate`, `wrong_mac_rejected`, `header_edit_reduction` are about the source text). -/
+
+theorem decrypt_tie (P : Prims) {ι : Type} (E : GoTie.DecryptEnv P ι) (file : Bytes) (ids : List ι) :
+    ∃ res, Extracted.age_Decrypt E.D E.U GoTie.errorsIsEq E.mac E.newReader E.key file ids = .ok res ∧
+      match (decryptInit P (ids.map E.idOf) file).1 with
+      | .ok (k, payload) => res = (k ++ payload, none)
+      | .error (.fatal _) => res.2 ≠ none ∧ res.2 ≠ Extracted.age_ErrIncorrectIdentity
+      | .error e => res = ([], GoTie.decryptErr e none) :=
+  GoTie.decrypt_tie P E file ids
 
 end Tie.C03
 end AgeModel
